@@ -12,6 +12,7 @@ impl BiAtomicU32 {
     }
 
     pub fn load(&self) -> (u32, u32) {
+        crate::verif_point!("biatomic:load");
         let num = self.inner.load(Ordering::SeqCst);
         Self::split_to_two_num(num)
     }
@@ -22,11 +23,13 @@ impl BiAtomicU32 {
         F2: Fn(u32) -> u32,
     {
         loop {
+            crate::verif_point!("biatomic:cas_load");
             let old_num = self.inner.load(Ordering::SeqCst);
             let (old_num1, old_num2) = Self::split_to_two_num(old_num);
             let new_num1 = num1_func(old_num1);
             let new_num2 = num2_func(old_num2);
             let new_num = Self::combine_two_num(new_num1, new_num2);
+            crate::verif_point!("biatomic:cas");
             let success = self
                 .inner
                 .compare_exchange(old_num, new_num, Ordering::SeqCst, Ordering::SeqCst)
